@@ -246,8 +246,23 @@ def state_flags(o, m):
 _SPEC = None
 
 
+def _watch_parent():
+    """Workers must not outlive a killed master (an orphaned worker may sit in a library livelock)."""
+    import threading
+
+    ppid = os.getppid()
+
+    def loop():
+        while True:
+            time.sleep(2.0)
+            if os.getppid() != ppid:
+                os._exit(3)
+    threading.Thread(target=loop, daemon=True).start()
+
+
 def _worker_init(spec_name, tier, seed):
     global _SPEC
+    _watch_parent()
     from . import specs
     _SPEC = specs.get(spec_name, tier, seed)
 
@@ -406,9 +421,14 @@ def continuation_c05(T, w1, m0):
     for s, v in pairs:
         k = m0.ref.kinds[s]
         if destr and k in "FP":
-            for req in (["op", "state", [s], "X" if k == "P" else "Creation", None],
-                        ["kraus", "state", [s], "dephase" if k == "P" else "ident", None],
-                        ["measure", "state", [s], True, True]):
+            reqs = [["op", "state", [s], "X" if k == "P" else "Creation", None],
+                    ["kraus", "state", [s], "dephase" if k == "P" else "ident", None],
+                    ["measure", "state", [s], True, True]]
+            h_ = m0.handle_of(s)
+            if h_:
+                reqs += [["measure", "ce:" + h_, [s], True, True], ["measure", "ce:" + h_, [s], False, False],
+                         ["op", "ce:" + h_, [s], "X" if k == "P" else "Creation", None]]
+            for req in reqs:
                 w = w1.clone()
                 r = w.apply(req, [])
                 if r.ok:
